@@ -50,6 +50,8 @@ template <class X> void run(Ctx& c, const Str& Bs, const Str& Rs, const char* ge
     if (!B.faithful() || !R.faithful()) { c.count("skipped_unfaithful_parse"); return; }
     if (c.rng.chance(1, 4)) B.make_owner();
     if (c.rng.chance(1, 4)) R.make_owner();
+    // a caller may fill in the structures itself: any non-zero absolutePath means "yes" (the model does not care how it is spelled)
+    if (c.rng.chance(1, 10)) { static const int T[] = {2, -1, 0x100, 0x7FFFFFFF}; if (B.u.absolutePath) B.u.absolutePath = T[c.rng.below(4)]; if (R.u.absolutePath) R.u.absolutePath = T[c.rng.below(4)]; c.count("non_canonical_absolute_path_flag"); }
     Comp mb = split(Bs), mr = split(Rs);
     c.note(fmt("%s resolve base=\"%s\" ref=\"%s\"", X::tag(), esc(Bs.substr(0, 150)).c_str(), esc(Rs.substr(0, 150)).c_str()));
     Ledger led;
